@@ -13,7 +13,7 @@ CONSTANTS
  CacheDroppedFirst = TRUE
  Drivers <- CliOnly
  BuildCleansOnEmpty = TRUE
- BuildProbes = TRUE
+ BuildProbes = FALSE
  MaxEnv = 0
  MaxRuns = 6
  MaxFaults = 0
